@@ -62,6 +62,13 @@ MUTANTS = [
     ("acceptable-drops-nil", R, "return err == nil || err == red.Nil || err == context.Canceled", "return err == nil || err == context.Canceled"),
     ("acceptable-drops-canceled", R, "return err == nil || err == red.Nil || err == context.Canceled", "return err == nil || err == red.Nil"),
     ("acceptable-everything", R, "return err == nil || err == red.Nil || err == context.Canceled", "return true"),
+    # context handling / per-command breaker (second round)
+    ("seeded-rpop-nil-trips-breaker", "PATCH", "/verif/seeded/C12/rpop-nil-trips-breaker/patch.diff"),
+    ("seeded-kv-saddctx-drops-context", "PATCH", "/verif/seeded/C12/kv-saddctx-drops-context/patch.diff"),
+    ("zscore-ctx-dropped", R, "node.ZScore(ctx, key, member)", "node.ZScore(context.Background(), key, member)"),
+    ("lpop-only-nil-error-acceptable", R, fn("LPopCtx", "}, acceptable)", "}, func(err error) bool { return err == nil })")),
+    ("hgetall-canceled-not-acceptable", R, fn("HGetAllCtx", "}, acceptable)", "}, func(err error) bool { return err == nil || err == red.Nil })")),
+    ("kv-ttlctx-drops-context", KV, "return node.TTLCtx(ctx, key)", "return node.TTL(key)"),
     # kv
     ("kv-hdel-other-key", KV, "return node.HDelCtx(ctx, key, field)", "return node.HDelCtx(ctx, field, key)"),
     ("kv-get-wrong-node", KV, fn("GetCtx", "node, err := s.getRedis(key)", "node, err := s.getRedis(key + \"x\")")),
@@ -122,8 +129,11 @@ def main():
             old, new = KV_DEL_OLD, KV_DEL_NEW
         subprocess.run(["git", "-C", SCR, "checkout", "--", R, KV], check=True)
         try:
-            apply(path, old, new)
-        except AssertionError as e:
+            if path == "PATCH":
+                subprocess.run(["git", "-C", SCR, "apply", old], check=True)
+            else:
+                apply(path, old, new)
+        except (AssertionError, subprocess.CalledProcessError) as e:
             results.append((name, "APPLY-FAILED", str(e)))
             print(name, "APPLY-FAILED", e, flush=True)
             continue
